@@ -381,6 +381,13 @@ func (cl *cluster) apply(ev string) {
 		cl.observe("Kill -> %s", cl.taskDesc())
 	case "DelSnap":
 		cl.deleteSnapshot(ev, f[1], before)
+	case "Resize":
+		mask := atoi(f[2])
+		for _, n := range maskNodes(mask, cl.cfg.N) {
+			cl.failREST[fmt.Sprintf("%d/resize", n)] = true
+		}
+		cl.nFaults += bits(mask)
+		cl.resize(ev, f[1], mask, before)
 	case "Break":
 		cl.stickyREST[f[1]+"/"+f[2]] = true
 		cl.nFaults++
@@ -726,5 +733,87 @@ func (cl *cluster) deleteSnapshot(ev, which string, before controller.VerifView)
 	}
 	if !accepted && len(now) > len(was) {
 		cl.violate("delete-precondition", "refused-delete-marked", fmt.Sprintf("%s (%s) was refused (%d) but the snapshot is now marked removed on %v (before %v)", ev, name, rec.Code, now, was))
+	}
+}
+
+// resize drives Controller.Resize (C16, controller clause): smaller / equal / garbage sizes and a wrong volume name
+// are refused without touching any replica; a grow resizes every replica in service and then the frontend; a replica
+// that fails the resize is marked failed.
+func (cl *cluster) resize(ev, kind string, mask int, before controller.VerifView) {
+	cur := before.Size
+	name, size := "vol", ""
+	switch kind {
+	case "grow":
+		size = fmt.Sprint(cur + Block)
+	case "same":
+		size = fmt.Sprint(cur)
+	case "shrink":
+		size = fmt.Sprint(cur - Block)
+	case "garbage":
+		size = "12q"
+	case "empty":
+		size = ""
+	case "wrongname":
+		name, size = "other", fmt.Sprint(cur+Block)
+	}
+	sizes := func() []int64 {
+		var l []int64
+		for _, nd := range cl.nodes {
+			l = append(l, nd.View().Size)
+		}
+		return l
+	}
+	was := sizes()
+	feBefore := cl.fe.resized
+	err := cl.guard(ev, func() error { return cl.c.Resize(name, size) })
+	cl.settle()
+	now := sizes()
+	after := cl.c.VerifView()
+	cl.observe("%s -> %v sizes=%v", ev, err != nil, now)
+	cl.nResizes++
+	if !cl.wants("c16") {
+		return
+	}
+	cl.cnt["resize_requests"]++
+	if kind != "grow" {
+		if err == nil {
+			cl.violate("resize", "invalid-resize-accepted:"+kind, fmt.Sprintf("%s (name %q, size %q, current %d) was accepted", ev, name, size, cur))
+		}
+		if fmt.Sprint(was) != fmt.Sprint(now) || after.Size != cur || cl.fe.resized != feBefore {
+			cl.violate("resize", "refused-resize-changed-state:"+kind, fmt.Sprintf("%s was refused but sizes changed: replicas %v -> %v, controller %d -> %d", ev, was, now, cur, after.Size))
+		}
+		return
+	}
+	var inService []int
+	for _, b := range before.Backends {
+		if b.Mode != string(types.ERR) {
+			inService = append(inService, nodeOf(b.Address))
+		}
+	}
+	if err == nil {
+		cl.cnt["resize_accepted"]++
+		// every replica that is still in service afterwards (a replica that failed or refused the resize is ERR-marked)
+		for _, b := range after.Backends {
+			n := nodeOf(b.Address)
+			if b.Mode != string(types.ERR) && now[n] != cur+Block {
+				cl.violate("resize", "grow-missed-replica", fmt.Sprintf("%s succeeded but node %d, still %s, has size %d (want %d)", ev, n, b.Mode, now[n], cur+Block))
+			}
+		}
+		if after.Size != cur+Block || cl.fe.resized == feBefore {
+			cl.violate("resize", "grow-not-recorded", fmt.Sprintf("%s succeeded but controller size is %d and the frontend was resized %d time(s)", ev, after.Size, cl.fe.resized-feBefore))
+		}
+	} else if cl.fe.resized != feBefore {
+		cl.violate("resize", "frontend-resized-on-failure", fmt.Sprintf("%s failed (%v) but the frontend was resized", ev, err))
+	}
+	for _, n := range maskNodes(mask, cl.cfg.N) {
+		for _, b := range after.Backends {
+			if nodeOf(b.Address) == n && b.Mode == string(types.RW) && len(cl.internal()) == 0 {
+				for _, x := range inService {
+					if x == n {
+						cl.violate("resize", "failed-resize-replica-still-rw", fmt.Sprintf("%s: node %d failed the resize but is still RW", ev, n))
+					}
+				}
+			}
+		}
 	}
 }
